@@ -72,10 +72,28 @@ def worker_init():
     from recognizers_number import NumberRecognizer
     from recognizers_number.culture import SUPPORTED_CULTURES
     M['marks_impl'] = {c: ((v.thousands_mark, v.decimals_mark) if v else (None, '.')) for c, v in SUPPORTED_CULTURES.items()}
+    import importlib
+    import re as _re
+    resmod = {'en-us': 'english', 'es-es': 'spanish', 'es-mx': 'spanish', 'fr-fr': 'french', 'pt-br': 'portuguese',
+              'de-de': 'german', 'it-it': 'italian', 'nl-nl': 'dutch', 'zh-cn': 'chinese', 'ja-jp': 'japanese'}
     for c in MARKS:
         r = NumberRecognizer(c)
         M[(c, 'number')] = r.get_number_model(c, False)
         M[(c, 'percentage')] = r.get_percentage_model(c, False)
+        # extra carriers derived mechanically from the culture's own ambiguity-filter vocabulary: every literal
+        # word of the filter *values* that is not itself a number, placed directly before / after the literal
+        mod = importlib.import_module('recognizers_number.resources.%s_numeric' % resmod[c])
+        cls = [v for k, v in vars(mod).items() if k.endswith('Numeric') and isinstance(v, type)][0]
+        words = []
+        for val in getattr(cls, 'AmbiguityFiltersDict', {}).values():
+            for w in _re.findall(r'[^\W\d_]+', _re.sub(r'\\.', ' ', val)):
+                if len(w) >= 2 and w not in words and not M[(c, 'number')].parse(w):
+                    words.append(w)
+        glue = '' if c in ('zh-cn', 'ja-jp') else ' '
+        keys = [_re.compile(k) for k in getattr(cls, 'AmbiguityFiltersDict', {})]
+        # a numeral character glued *after* the digits is part of a different number by design: not a carrier
+        M[('amb', c)] = [(w + glue, '') for w in words] + \
+                        [('', glue + w) for w in words if glue or not any(k.search(w[0]) for k in keys)]
 
 
 def group3(digits, mark):
@@ -142,7 +160,10 @@ def body(ch):
     ch.shard()
     n = ch.pick('int', ints[ci * CFG['chunk']:(ci + 1) * CFG['chunk']])
     frac = ch.pick('frac', FRACS if (pool == 'small' or thorough) else FRACS_GROUPS)
-    pre, post = ch.pick('carrier', (('', ''), CARRIER[cul]))
+    carriers = [('', ''), CARRIER[cul]]
+    if pool == 'small' and frac in ('', '5'):
+        carriers = carriers + M[('amb', cul)]
+    pre, post = ch.pick('carrier', carriers)
     digits = str(n)
     if 'grouped' in form:
         if n < 1000:
@@ -156,6 +177,13 @@ def body(ch):
     res = M[(cul, model)].parse(q)
     got = [(e.start, e.end, e.text, e.type_name, (e.resolution or {}).get('value')) for e in res]
     cls = '%s|%s|%s%s' % (cul, model, form, '+decimal' if frac else '')
+    if (pre, post) in M[('amb', cul)]:
+        # attribute the failure to the neighbouring word only if the same literal is handled correctly alone
+        alone = M[(cul, model)].parse(lit + suffix)
+        if (len(alone) == 1 and (alone[0].start, alone[0].end) == (0, len(lit + suffix) - 1) and len(got) == 1 and
+                check_value((alone[0].resolution or {}).get('value'), tm, dm, d, r, sig, suffix) is None) or \
+                (len(alone) == 1 and len(got) != 1 and (alone[0].start, alone[0].end) == (0, len(lit + suffix) - 1)):
+            cls += '|next-to:' + (pre + post).strip()
     if len(got) != 1:
         ch.fail('%s|%s' % (cls, 'missing' if not got else 'split'), {'culture': cul, 'query': q, 'literal': lit, 'observed': got})
         return
